@@ -112,6 +112,7 @@ struct PendingState {
 
 struct ActiveState {
     local_nonce: u32,
+    remote_nonce: u32,
     half_connection: half_connection::HalfConnection,
     timeout_time_ms: u64,
     disconnect_signal: Option<DisconnectMode>,
@@ -448,6 +449,7 @@ impl Client {
 
                     self.state = State::Active(ActiveState {
                         local_nonce: state.local_nonce,
+                        remote_nonce: frame.nonce,
                         half_connection,
                         timeout_time_ms: now_ms + self.config.endpoint_config.active_timeout_ms,
                         disconnect_signal: None,
@@ -456,11 +458,13 @@ impl Client {
             }
             State::Active(ref state) => {
                 // A matching SYN+ACK has already been received, so acknowledge this one assuming
-                // the nonce ack matches ours (and ignore it otherwise). This case is only
-                // encountered when our initial ACK was dropped - all that matters is that the
-                // server receives an ACK.
+                // it is a copy of the one we accepted (and ignore it otherwise). This case is
+                // only encountered when our initial ACK was dropped - all that matters is that
+                // the server receives an ACK. A SYN+ACK carrying a different server nonce
+                // belongs to another handshake (e.g. a delayed duplicate of our SYN reaching a
+                // server which has already forgotten this connection) and must not be confirmed.
 
-                if frame.nonce_ack == state.local_nonce {
+                if frame.nonce_ack == state.local_nonce && frame.nonce == state.remote_nonce {
                     let reply = frame::Frame::HandshakeAckFrame(frame::HandshakeAckFrame {
                         nonce_ack: frame.nonce,
                     });
